@@ -88,7 +88,7 @@ def _simpler_ops(op):
     if k in ("bc_edit", "val_edit") and a.get("how") in ("slice", "item2", "slice2"):
         yield with_a(how="assign")
     if k == "solve":
-        if a.get("solver") in ("ext", "ext_mark"):
+        if a.get("solver") in ("ext", "ext_mark", "def_record"):
             yield with_a(solver=None)
         if len(a.get("terms", [])) > 1:
             for i in range(len(a["terms"])):
